@@ -58,6 +58,13 @@ type Storage struct {
 	debug         bool
 	maxCacheBytes int64
 
+	// rmMu orders removals against everything that adds a blob to the
+	// cache or the origin (uploads, and fetches filling the cache):
+	// those hold it for reading, RemoveBlobs holds it for writing.
+	// Without it, an upload or a cache fill overlapping a removal could
+	// leave the blob in the cache and not in the origin for good.
+	rmMu sync.RWMutex
+
 	mu         sync.Mutex // guards following
 	lru        *lru.Cache
 	cacheBytes int64
@@ -159,6 +166,8 @@ func (sto *Storage) Fetch(ctx context.Context, b blob.Ref) (rc io.ReadCloser, si
 	if !errors.Is(err, os.ErrNotExist) {
 		log.Printf("warning: proxycache cache fetch error for %v: %v", b, err)
 	}
+	sto.rmMu.RLock()
+	defer sto.rmMu.RUnlock()
 	rc, size, err = sto.origin.Fetch(ctx, b)
 	if err != nil {
 		return
@@ -226,6 +235,8 @@ func (sto *Storage) ReceiveBlob(ctx context.Context, br blob.Ref, src io.Reader)
 		return blob.SizedRef{}, err
 	}
 
+	sto.rmMu.RLock()
+	defer sto.rmMu.RUnlock()
 	sb, err := sto.origin.ReceiveBlob(ctx, br, bytes.NewReader(buf.Bytes()))
 	if err != nil {
 		return sb, err
@@ -244,6 +255,8 @@ func (sto *Storage) RemoveBlobs(ctx context.Context, blobs []blob.Ref) error {
 	// the blobs: if the origin's removal succeeded and the cache's
 	// failed, the removed blobs would still be fetched and stat-ed
 	// from the cache while no longer being enumerated.
+	sto.rmMu.Lock()
+	defer sto.rmMu.Unlock()
 	if err := sto.cache.RemoveBlobs(ctx, blobs); err != nil {
 		return err
 	}
